@@ -554,6 +554,8 @@ T("fmt13-twin-entry-local", "C19", TY, "            else:\n                yield
 # ---------------------------------------------------------------- GLUE-9 / GLUE-10
 M("glue9-outermost-without-glue", "C17", EX, "    assert current_options.with_contexts is not None\n    _glue.add_glue_as_needed()\n", "    assert current_options.with_contexts is not None\n", ["GLUE-9"], accept_analysis_error=True)
 T("glue9-twin-callers-install", "C17", EX, "    assert current_options.with_contexts is not None\n    _glue.add_glue_as_needed()\n", "    assert current_options.with_contexts is not None\n", extra=[("    it = extract_iter(stackitem, errors)", "    _glue.add_glue_as_needed()\n    it = extract_iter(stackitem, errors)"), ("            return next(extract_iter(stackitem, errors))", "            _glue.add_glue_as_needed()\n            return next(extract_iter(stackitem, errors))")])
+M("glue1-conditional-pending-pop", "C17", GL, "    builtin_fn = builtin_glue_pending.pop(module_name, None)\n    try:\n        module_fn = sys.modules", "    try:\n        module_fn = sys.modules",
+  ["GLUE-1"], accept_analysis_error=True, extra=[("        if module_fn is not None:\n            module_fn()\n        elif builtin_fn is not None:\n            builtin_fn()", "        glue_fn = module_fn or builtin_glue_pending.pop(module_name, None)\n        if glue_fn is not None:\n            glue_fn()")])
 M("glue10-name-memo", "C17", GL, "        for module_name in module_names:\n            install_glue_for_module(module_name)\n", "        for module_name in module_names:\n            if module_name in _seen_names:\n                continue\n            _seen_names.add(module_name)\n            install_glue_for_module(module_name)\n", "GLUE-10", extra=[("glue_lock = threading.Lock()\n", "glue_lock = threading.Lock()\n_seen_names: set = set()\n")])
 
 # ---------------------------------------------------------------- ENG-5 / normaliser
